@@ -58,6 +58,15 @@ def cfgCurOf (tb : Tables) : Cfg :=
 /-- case: (c13 MUTATION (l DEF…)); obs: (obs accepted offenderNamed) -/
 def handle (tb : Tables) (c impl : T) : String :=
   match c with
+  | .node "c13h" [_, refuse] =>
+    -- a later load that breaks a rule for a type of an earlier load (fixed table); obs: (obs refused named
+    -- rootUnchanged).  The model is the property: refused exactly when the resulting schema breaks a rule, the
+    -- error names the offender, and a refused load leaves the root as it was (C14).
+    (match refuse.asBool, impl with
+     | some true, .node "obs" [r, n, u] =>
+       if r == T.ofBool true && n == T.ofBool true && u == T.ofBool true then "ok" else "mismatch spec-bad (obs true true true)"
+     | some false, .node "obs" [r, _, _] => if r == T.ofBool false then "ok" else "mismatch spec-bad (obs false true true)"
+     | _, _ => "bad-op")
   | .node "c13" [_, defs] =>
     match (do optMap decDef (← defs.asList)) with
     | none => "bad-op"
